@@ -239,6 +239,21 @@ def D21():
     return holds, f"class H(G[List[T]], Generic[T]) with own field y: T; H[int] field types / from_data: {r!r}"
 
 
+def D22():
+    import pane
+    from pane.annotations import Tagged
+    from pane.util import flatten_union_args
+    def mk():
+        class V1(pane.PaneBase):
+            tag: t.Literal['a'] = 'a'
+        class V2(pane.PaneBase):
+            tag: t.Literal['b'] = 'b'
+        return pane.from_data({'tag': 'b'}, t.Annotated[V1 | V2, Tagged('tag')]), list(flatten_union_args([int | str, t.Union[bytes, None]]))
+    r = _outcome(mk)
+    holds = r[0] == 'ok' and type(r[1][0]).__name__ == 'V2' and r[1][1] == [int, str, bytes, type(None)]
+    return holds, f"Tagged over a PEP 604 union (V1 | V2) / flatten_union_args on `int | str`: {r!r}"
+
+
 # ---- known findings (status=known): each returns holds=False while the finding reproduces -------------
 def N1():
     import pane
